@@ -1,2 +1,46 @@
-From HD Require Import common.Base he.Model he.Spec.
-Theorem c11_tmp : True. Proof. exact I. Qed.
+(* C11 — Happy-eyeballs attempts are paced, ordered, bounded and meet the deadline.
+   Statements only; proofs in he/Proofs.v.  Quantification as in C10. *)
+From HD Require Import common.Base he.Model he.Spec he.Proofs.
+
+(* started in the given order, each candidate at most once, a later candidate never before an
+   earlier one; every completion belongs to a started attempt, exactly its latency later *)
+Theorem c11_order : forall c tb atts, s_order atts (he_obs c tb atts) = true.
+Proof.
+  intros c tb atts. destruct (he_obs_final c atts tb) as (res & td & lg & E & HF).
+  rewrite E. exact (clause_order c atts res td lg HF).
+Qed.
+Print Assumptions c11_order.
+
+(* the initial batch (min(concurrency, n) candidates, all when no concurrency is set) starts at 0 *)
+Theorem c11_initial : forall c tb atts, s_initial c atts (he_obs c tb atts) = true.
+Proof.
+  intros c tb atts. destruct (he_obs_final c atts tb) as (res & td & lg & E & HF).
+  rewrite E. exact (clause_initial c atts res td lg HF).
+Qed.
+Print Assumptions c11_initial.
+
+(* the operation completes no later than the configured deadline (and does complete) *)
+Theorem c11_deadline : forall c tb atts, s_deadline c (he_obs c tb atts) = true.
+Proof.
+  intros c tb atts. destruct (he_obs_final c atts tb) as (res & td & lg & E & HF).
+  rewrite E. exact (clause_deadline c atts res td lg HF).
+Qed.
+Print Assumptions c11_deadline.
+
+(* PARTIAL: the full monitor is mon_C11 = s_order && s_initial && s_pace && s_unstarted &&
+   s_deadline.  Proved here: the conjunction without the two pacing clauses (s_pace: every
+   later start is triggered by the stagger timer / a failure / an empty set, and happens as soon
+   as that trigger; s_unstarted: the same for candidates never started).  The pacing clauses are
+   checked on every implementation trace and on the model by the correspondence run. *)
+Theorem c11_monitor_partial : forall c tb atts, mon_C11_proved c atts (he_obs c tb atts) = true.
+Proof. exact mon_C11_proved_holds. Qed.
+Check c11_monitor_partial : forall c tb atts,
+  (s_order atts (he_obs c tb atts) && s_initial c atts (he_obs c tb atts)
+   && s_deadline c (he_obs c tb atts)) = true.
+Print Assumptions c11_monitor_partial.
+
+Example c11_example :
+  mon_C11 (mkCfg (Some 3%N) (Some 20%N) (Some 1%nat)) [mkAtt Fail 5; mkAtt Succ 4; mkAtt Never 0]%N
+    (he_obs (mkCfg (Some 3%N) (Some 20%N) (Some 1%nat)) [] [mkAtt Fail 5; mkAtt Succ 4; mkAtt Never 0]%N)
+  = true.
+Proof. vm_compute. reflexivity. Qed.
